@@ -332,6 +332,38 @@ def run(ck, prog, tier):
         raise AnalysisError('clip_segment: the returned working segment is not one variable (%s)'
                             % sorted(seg_names))
     segname = seg_names.pop()
+    # one iteration is analysed from the state "end points anywhere, everything else as the
+    # prologue left it".  A local that an iteration reads *before* it assigns it carries a value
+    # from the previous iteration (a cached slope, a remembered code): the analysis would start
+    # every iteration from the prologue value and never see the stale one.
+    known = set(roles.values()) | {segname} | ({counter} if counter else set()) | \
+        ({loop.target.id} if counted else set())
+    first_use = {}
+    for n_ in ast.walk(ast.Module(body=loop.body, type_ignores=[])):
+        if isinstance(n_, ast.Name):
+            pos_ = (n_.lineno, n_.col_offset)
+            cur_ = first_use.get(n_.id)
+            if cur_ is None or pos_ < cur_[0]:
+                first_use[n_.id] = (pos_, isinstance(n_.ctx, ast.Load))
+    stored = {n_.id for b_ in loop.body for n_ in ast.walk(b_)
+              if isinstance(n_, ast.Name) and isinstance(n_.ctx, ast.Store)}
+    # `x = f(x)` reads x first although the Store node comes first in the source
+    for b_ in loop.body:
+        for n_ in ast.walk(b_):
+            if isinstance(n_, (ast.Assign, ast.AugAssign)):
+                tg_ = n_.targets if isinstance(n_, ast.Assign) else [n_.target]
+                for t_ in tg_:
+                    if isinstance(t_, ast.Name) and (isinstance(n_, ast.AugAssign) or any(
+                            isinstance(m_, ast.Name) and m_.id == t_.id
+                            for m_ in ast.walk(n_.value))):
+                        pos_ = (n_.lineno, n_.col_offset)
+                        if first_use.get(t_.id, ((10 ** 9, 0), False))[0] >= pos_:
+                            first_use[t_.id] = (pos_, True)
+    carried = sorted(n_ for n_ in stored if n_ not in known and first_use.get(n_, (None, False))[1])
+    if carried:
+        raise AnalysisError('clip_segment: the loop body reads %s before assigning it - a value '
+                            'carried over from the previous iteration, which the one-iteration '
+                            'analysis does not follow; cannot conclude' % ', '.join(carried))
     axes = axis_cases()
     ck.extra['order_types_per_axis'] = len(axes)
     n_cases = n_steps = 0
